@@ -3999,3 +3999,93 @@ func isRangeKey(v ssa.Value) bool {
 	}
 	return false
 }
+
+// ---------------------------------------------------------------------------
+// R09.9
+
+func init() {
+	register(&Rule{
+		ID: "R09.9", Props: []string{"C09", "C14", "C16"}, Engine: "return-shape (SSA, every implementation of an interface method)",
+		Text: "a chunk is never delivered together with an error: in every implementation of buffer.ChunkReader.Read in the module each return either carries no data (nil) or a nil error – or forwards both results of one call of another ChunkReader's Read (or of a helper of the same type) unchanged; every consumer (the validating readers first of all) treats io.EOF as `no more data` and drops a chunk that comes with it, so the tail of a healthy object would be reported as missing",
+		Floor: 8, MustExist: true, Run: runR099,
+	})
+}
+
+func runR099(c *Ctx) {
+	im := c.IfaceMethod(bufferRel, "ChunkReader", "Read")
+	if im == nil {
+		c.Broken("buffer.ChunkReader.Read not found")
+		return
+	}
+	want := im.Type().(*types.Signature)
+	var impls []*ssa.Function
+	for _, f := range c.Funcs {
+		if f.Parent() != nil || f.Name() != "Read" || f.Signature.Recv() == nil || len(f.Blocks) == 0 {
+			continue
+		}
+		if f.Signature.Params().Len() != 0 || f.Signature.Results().Len() != 2 {
+			continue
+		}
+		if !types.Identical(f.Signature.Results().At(0).Type(), want.Results().At(0).Type()) || !types.Identical(f.Signature.Results().At(1).Type(), want.Results().At(1).Type()) {
+			continue
+		}
+		impls = append(impls, f)
+	}
+	sortFuncs(impls)
+	for _, fn := range impls {
+		name := FuncName(fn)
+		bad := token.NoPos
+		for _, r := range returnsOf(fn) {
+			data, err := returnedValue(r, 0), returnedValue(r, 1)
+			if isNilConst(data) || isNilConst(err) {
+				continue
+			}
+			// forwarding both results of one call
+			if d, ok := stripConv(data).(*ssa.Extract); ok {
+				if e, ok := stripConv(err).(*ssa.Extract); ok && d.Tuple == e.Tuple && d.Index == 0 && e.Index == 1 {
+					if cl, ok := d.Tuple.(*ssa.Call); ok {
+						if cl.Call.IsInvoke() && cl.Call.Method.Name() == "Read" {
+							continue
+						}
+						if inlineOwnMethods(cl) != nil {
+							continue
+						}
+					}
+				}
+			}
+			// … or both fields of one result record that was handed over by the consumer that did the read
+			if df, ok := stripConv(data).(*ssa.Field); ok {
+				if ef, ok := stripConv(err).(*ssa.Field); ok && df.X == ef.X {
+					continue
+				}
+			}
+			if fd, bd := loadedField(stripConv(data)); fd != nil {
+				if fe, be := loadedField(stripConv(err)); fe != nil && bd == be && fd != fe {
+					continue
+				}
+			}
+			// the error is nil on every path to this return?
+			errNil := false
+			if ex, ok := stripConv(err).(*ssa.Extract); ok {
+				if cl, ok := ex.Tuple.(*ssa.Call); ok && dominatedByErrNil(r.Block(), cl) {
+					errNil = true
+				}
+			}
+			if errNil {
+				continue
+			}
+			if bad == token.NoPos {
+				bad = r.Pos()
+			}
+		}
+		c.Check(bad == token.NoPos, name, "no-data-with-error", c.Pos(func() token.Pos {
+			if bad != token.NoPos {
+				return bad
+			}
+			return fn.Pos()
+		}()), "data and error are never returned together", "Read can return a chunk together with a non-nil error (for instance the last decompressed bytes together with io.EOF): consumers drop a chunk that arrives with io.EOF, so a complete, matching object is reported as too short (INTERNAL, `corrupted`)")
+	}
+	if len(impls) == 0 {
+		c.Fail("buffer.ChunkReader", "no-data-with-error", "-", "no implementation of ChunkReader.Read found")
+	}
+}
